@@ -98,6 +98,8 @@ class ConnProc:
                     arrivals.append((base, False))
                 elif act[0] == "delay":      # overtaken by act[1] later units of the same direction
                     arrivals.append((base + act[1] * self.gap + self.gap // 3, False))
+                elif act[0] == "early":      # overtakes act[1] earlier units of the same direction (they took a slower path)
+                    arrivals.append((max(self.lat[d] // 2, base - act[1] * self.gap - self.gap // 3), False))
                 elif act[0] == "lost_before":  # lost before the tap, retransmitted after RTO -> seen once, late
                     arrivals.append((base + self.rto, False))
                 elif act[0] == "dup":        # seen twice: second copy act[1] units later (fast retransmit)
@@ -330,8 +332,9 @@ def plain_flights(conn):
 def build_frame(conn, info, e, mod=None):
     """tap entry -> link-layer frame bytes.  mod: optional payload/checksum fault"""
     v6 = conn["v6"]
-    src = ep(conn["c"] if e["d"] == "c" else conn["s"])
-    dst = ep(conn["s"] if e["d"] == "c" else conn["c"])
+    cl = conn["c_mig"] if (e.get("mig") and conn.get("c_mig")) else conn["c"]   # client address after NAT rebinding
+    src = ep(cl if e["d"] == "c" else conn["s"])
+    dst = ep(conn["s"] if e["d"] == "c" else cl)
     pad_to = 60 if conn.get("pad_eth", True) else 0
     bad = None
     if mod and mod.get("badcsum"):
